@@ -160,9 +160,28 @@ def strip_lean_comments(src: str) -> str:
     return "".join(out)
 
 
-def grep_forbidden() -> list[str]:
+def import_closure(module: str) -> list[Path]:
+    """the project files a module depends on (transitively), itself included"""
+    seen: dict[str, Path] = {}
+    todo = [module]
+    while todo:
+        m = todo.pop()
+        if m in seen or not m.startswith("PestModel"):
+            continue
+        path = LEAN / (m.replace(".", "/") + ".lean")
+        if not path.exists():
+            continue
+        seen[m] = path
+        for mm in re.findall(r"^\s*(?:public\s+)?import\s+([\w.]+)", path.read_text(), re.M):
+            todo.append(mm)
+    return sorted(seen.values())
+
+
+def grep_forbidden(module: str | None = None) -> list[str]:
+    """forbidden tokens in the files the property's module depends on (all project files if None)"""
     hits = []
-    for path in sorted((LEAN / "PestModel").rglob("*.lean")):
+    files = import_closure(module) if module else sorted((LEAN / "PestModel").rglob("*.lean"))
+    for path in files:
         text = strip_lean_comments(path.read_text())
         for ln, line in enumerate(text.splitlines(), 1):
             if _FORBIDDEN.search(line):
@@ -285,7 +304,7 @@ def proof_stage(out: Outcome, prop: str, theorems: list[str], extra_targets: lis
             bad.append(f"{t}: axioms {a}")
         else:
             info["discharged"] += 1
-    forb = grep_forbidden()
+    forb = grep_forbidden(f"PestModel.Props.{prop}")
     if forb:
         bad.extend("forbidden: " + h for h in forb)
     info["axioms"] = {t: a for t, a in ax.items()}
